@@ -30,7 +30,7 @@ func init() {
 		ID:    "C12",
 		Level: "exploration",
 		Rule: "exhaustive enumeration against the real socks5 server (serverServeConn, RunUDPAssociateLoop, runUDPAssociateDatagramLoop): destinations = boundary addresses of 127/8, 10/8, 172.16/12, 192.168/16, fc00::/7, ::1 in IPv4, IPv6 and IPv4-mapped form, 0.0.0.0, ::, zero-length domain, the eight well-known local names in lower/UPPER/Mixed case and with a trailing dot, IP addresses written as text in the domain-name field, public controls just outside every block; " +
-			"commands {CONNECT, UDP ASSOCIATE (both relay modes) with every destination again as relayed datagram header}; users {unknown, registered without flags, allowPrivateIP, allowLoopbackIP, both}; egress rule lists of <=2 rules from {10/8 REJECT, * DIRECT, * REJECT, * PROXY, suffix-domain REJECT, suffix-domain PROXY} in both orders; oracle = reference policy from the statement, observed as reply code and as the log of every dial / sendto the server attempted. distinct = distinct (destination, command, user, rule list)",
+			"commands {CONNECT, UDP ASSOCIATE (both relay modes) with every destination again as relayed datagram header}; users {unknown, registered without flags, allowPrivateIP, allowLoopbackIP, both}; egress rule lists of <=2 rules from {10/8 REJECT, * DIRECT, * REJECT, * PROXY, suffix-domain REJECT, suffix-domain PROXY} in both orders; users' flags changed by the mita daemon's Reload handler {absent, none, private, loopback, both}^2 x 7 destinations (the decision must follow the reloaded list); oracle = reference policy from the statement, observed as reply code and as the log of every dial / sendto the server attempted. distinct = distinct (destination, command, user, rule list)",
 		Assumptions: []string{
 			"Go's documented dial semantics are implemented by the vnet shim: an empty host or an unspecified address reaches the local system; local host names resolve case-insensitively to loopback, as the system resolver does",
 			"a UDP ASSOCIATE request naming an unspecified or empty host (the RFC's 'address not known' value) may be accepted; the datagram destinations are what matters there",
@@ -445,5 +445,6 @@ func units(tier string) []runner.Unit {
 			u.Sample(tcase{d: assoc, cmd: 3, u: us[2], dgram: &ds[0]}.String())
 		}})
 	}
+	out = append(out, reloadUnits()...)
 	return out
 }
